@@ -545,6 +545,36 @@ async def roundtrip_workflow(spec):
         d = diff(before, canon_workflow(l2))
         if d:
             fails.append(("workflow-copy-save-load", d))
+        # incremental save: the persisted workflow grows -- new ports attached to steps that already have a persistent id,
+        # a new step wired to them -- and is saved again; the reloaded graph must have the new wiring too
+        grown = []
+        for i, (sname, step) in enumerate(sorted(wf.steps.items())):
+            if hasattr(step, "output_processors"):
+                continue  # a new output of an ExecuteStep also changes its stored parameters, which save() writes only once
+            try:
+                po = wf.create_port(name=f"grown-out-{i}")
+                step.add_output_port(f"grown_out_{i}", po)
+                pi = wf.create_port(name=f"grown-in-{i}")
+                step.add_input_port(f"grown_in_{i}", pi)
+                grown.append(sname)
+            except Exception:  # noqa -- classes with a fixed port layout refuse extra ports
+                continue
+            if len(grown) >= 4:
+                break
+        if grown:
+            extra = wf.create_step(cls=wfkit.PyTransformer, name="/grown-step", func="id")
+            extra.add_input_port("x", wf.ports["grown-out-0"] if "grown-out-0" in wf.ports else wf.create_port(name="grown-x"))
+            extra.add_output_port("x", wf.create_port(name="grown-y"))
+            await wf.save(ctx.database)
+            after = canon_workflow(wf)
+            l3 = await DefaultDatabaseLoadingContext(ctx.database).load_workflow(wf.persistent_id)
+            d = diff(after, canon_workflow(l3))
+            if d:
+                fails.append(("workflow-incremental-save", d))
+            cp3 = await WorkflowBuilder(ctx.database, deep_copy=True).load_workflow(wf.persistent_id)
+            d = diff(after, canon_workflow(cp3))
+            if d:
+                fails.append(("workflow-incremental-save-copy", d))
         # input tokens
         for p, tok in wb.inputs:
             t2 = await DefaultDatabaseLoadingContext(ctx.database).load_token(tok.persistent_id)
